@@ -57,6 +57,15 @@ class SymCtx(BaseCtx):
     def list(self, o): return list(self.I.iter(o))
     def replace(self, f, handler):
         self.I.contracts[f] = handler
+    def loop_contract(self, qualname, ordinal, handler):
+        self.I.loop_contracts[(qualname, ordinal)] = handler
+    def axiom_inverse(self, f, g, proved_by):
+        assert len(f.arg_bits) == 1 and len(g.arg_bits) == 1 and f.out_bits == g.arg_bits[0] and g.out_bits == f.arg_bits[0]
+        ff = z3.Function('%s#0' % f.name, z3.BitVecSort(f.arg_bits[0]), z3.BitVecSort(f.out_bits))
+        gg = z3.Function('%s#0' % g.name, z3.BitVecSort(g.arg_bits[0]), z3.BitVecSort(g.out_bits))
+        x = z3.BitVec('ax_x', f.arg_bits[0])
+        self.I.solver.add(z3.ForAll([x], gg(ff(x)) == x, patterns=[gg(ff(x))]))
+        self.I.used_contracts.add('axiom %s(%s(x))==x [%s]' % (g.name, f.name, proved_by))
     def assume(self, cond):
         self.I.assume(cond)
     def ensure(self, label, cond, **info):
